@@ -93,6 +93,12 @@ void supla_esp_board_gpio_init(void) {
 #endif
 }
 
+/* model 3: a physical shutter per rs index: position in ms of travel from fully open (0) to fully closed
+ * (motor_down_ms), integrated from the relay levels seen at every query (the firmware asks every 10 ms);
+ * the motor draws power while a relay is on, the start-up delay has passed and the end stop in that
+ * direction is not reached */
+double fw_phys_pos[8];
+static uint64_t phys_last[8];
 bool supla_esp_board_is_rs_in_move(supla_roller_shutter_cfg_t *rs_cfg) {
   /* motor/sensor model chosen by the ops file */
   unsigned int t = system_get_time();
@@ -101,6 +107,25 @@ bool supla_esp_board_is_rs_in_move(supla_roller_shutter_cfg_t *rs_cfg) {
       return true; /* stuck "moving" */
     case 2:
       return false; /* never moving */
+    case 3: {
+      int i = (int)(rs_cfg - supla_rs_cfg);
+      if (i < 0 || i >= 8) return false;
+      double dt = (double)(sdk_now_us - phys_last[i]) / 1000.0;
+      phys_last[i] = sdk_now_us;
+      int up = 1 == __supla_esp_gpio_relay_is_hi(rs_cfg->up), down = 1 == __supla_esp_gpio_relay_is_hi(rs_cfg->down);
+      unsigned el = t - rs_cfg->start_time;
+      int started = el >= (unsigned)fw_board.motor_startup_ms * 1000u;
+      double total = fw_board.motor_down_ms > 0 ? fw_board.motor_down_ms : 1;
+      /* travel is measured on the closing time scale; opening may be slower/faster */
+      double up_rate = fw_board.motor_up_ms > 0 ? total / fw_board.motor_up_ms : 1.0;
+      bool moving = false;
+      if (up && !down && started) {
+        if (fw_phys_pos[i] > 0) { moving = true; fw_phys_pos[i] -= dt * up_rate; if (fw_phys_pos[i] < 0) fw_phys_pos[i] = 0; }
+      } else if (down && !up && started) {
+        if (fw_phys_pos[i] < total) { moving = true; fw_phys_pos[i] += dt; if (fw_phys_pos[i] > total) fw_phys_pos[i] = total; }
+      }
+      return moving;
+    }
     default:
       break;
   }
@@ -171,8 +196,11 @@ void supla_verif_hook_rs_set_relay(supla_roller_shutter_cfg_t *rs_cfg, uint8 val
   if (fw_hook_rs_log && rs_cfg->up && rs_cfg->down) {
     int zero_margin = supla_esp_cfg.AdditionalTimeMargin[rs_cfg->up->channel] == 0;
     int pos = supla_esp_gpio_rs_get_current_position(rs_cfg);
+    int tilts = supla_esp_gpio_rs_is_tilt_supported(rs_cfg);
+    int tilt = supla_esp_gpio_rs_get_current_tilt(rs_cfg);
+    /* "already at the end stop with a zero margin": for blinds only when the tilt is at its end too */
     sdk_out("SETRELAY %d %u %u %d %d %u %u %llu", (int)(rs_cfg - supla_rs_cfg), value, stop_delay,
-            zero_margin && pos == 0, zero_margin && pos == 100,
+            zero_margin && pos == 0 && (!tilts || tilt == 0), zero_margin && pos == 100 && (!tilts || tilt == 100),
             (unsigned)rs_cfg->up->gpio_id, (unsigned)rs_cfg->down->gpio_id,
             (unsigned long long)sdk_now_us);
   }
